@@ -89,6 +89,17 @@ def execute(mod, case):
     return res
 
 
+def _die_with_parent():
+    """A case process must not outlive the worker that forked it (a case
+    stuck in C code would otherwise keep burning CPU as an orphan)."""
+    try:
+        import ctypes
+        import signal
+        ctypes.CDLL(None).prctl(1, signal.SIGKILL)      # PR_SET_PDEATHSIG
+    except Exception:
+        pass
+
+
 def run_isolated(mod, case, timeout=900):
     """Execute one case in a fork of this (pristine) process and return its
     result.  The calling process never runs library code itself, so every
@@ -103,6 +114,7 @@ def run_isolated(mod, case, timeout=900):
     if pid == 0:
         try:
             os.close(r)
+            _die_with_parent()
             try:
                 payload = pickle.dumps(('ok', execute(mod, case)))
             except MemoryError:
